@@ -52,7 +52,7 @@ type c19Event struct {
 }
 
 func (e c19Event) sameStmt(o c19Event) bool {
-	return e.line == o.line && e.col == o.col && e.ip == o.ip && e.depth == o.depth && e.t == o.t && e.end == o.end
+	return e.line == o.line && e.col == o.col && e.ip == o.ip && e.t == o.t && e.end == o.end
 }
 
 func (e c19Event) String() string {
@@ -227,7 +227,7 @@ var c19uses = map[bool]int{}
 
 func c19top(withDebugger bool) *fast.Interp {
 	ir := c19tops[withDebugger]
-	if ir == nil || c19uses[withDebugger] > 4000 {
+	if ir == nil || c19uses[withDebugger] > 1500 {
 		ir = newQuietInterp()
 		g := &ir.Comp.Globals
 		g.Options &^= base.OptShowPrompt | base.OptTrapPanic | base.OptShowEval | base.OptShowEvalType
@@ -250,8 +250,9 @@ type c19Outcome struct {
 // c19run evaluates prelude (declares `var t uint64` and the functions) in a fresh inner interpreter,
 // then main with Interp.Debug (kind 'D') or Interp.Eval (kind 'E').  dbg == nil: no debugger at all.
 func c19run(prelude, main string, kind byte, dbg fast.Debugger, rl base.Readline) (out c19Outcome) {
-	top := c19top(dbg != nil)
-	ir := fast.NewInnerInterp(top, "p", "p")
+	// (an inner interpreter per program would be cleaner, but closures nested two levels deep that use a
+	// global panic with "index out of range" inside fast.NewInnerInterp -- unrelated to the debugger)
+	ir := c19top(dbg != nil)
 	g := &ir.Comp.Globals
 	if dbg != nil {
 		ir.SetDebugger(dbg)
@@ -526,7 +527,7 @@ func c19exec(op string) Result {
 	// (b) reported call depth = static call depth
 	lv := c19levels(prelude)
 	nprel := strings.Count(prelude, "\n") + 1
-	panicked := strings.HasPrefix(ref.ref.res, "panic") || strings.Contains(prelude, "recover()")
+	panicked := strings.HasPrefix(ref.ref.res, "panic") || strings.Contains(prelude, "recover()") || strings.Contains(prelude, "panic(")
 	hasEnd := false
 	for _, e := range tr {
 		if e.end {
@@ -596,6 +597,9 @@ func c19exec(op string) Result {
 				s.idx = j
 				break
 			}
+		}
+		if s.idx >= 0 && tr[s.idx].depth != s.ev.depth && !panicked {
+			viol("call-depth-differs", "statement %s: call depth %d in the scripted run, %d in the complete single-step run", s.ev.where(), s.ev.depth, tr[s.idx].depth)
 		}
 		if s.idx >= 0 {
 			if s.isBp {
@@ -985,7 +989,7 @@ func c19program(r *rand.Rand) (string, string) {
 	pad := strings.Repeat("\n", len(g.lines))
 	var main string
 	switch k := r.Intn(10); {
-	case k < 6 || g.allRet:
+	case k < 6 || g.allRet || g.panics:
 		main = fmt.Sprintf("f1_0(%d)", r.Intn(6))
 	case k < 8:
 		main = pad + fmt.Sprintf(`a := f1_0(%d); t = t*31 + 1000; "break"; b := f1_0(a %% 3); a + b`, r.Intn(6))
@@ -998,7 +1002,7 @@ func c19program(r *rand.Rand) (string, string) {
 var c19words = []string{"s", "st", "step", "n", "ne", "next", "f", "fi", "finish", "c", "cont", "continue"}
 var c19noise = []string{"", "x", "stepp", "nextt", "sx", "S", "Next", "h", "?", "l", "list", "v", "b", "backtrace", "p", "print 1+1", "e", "inspect", "i", "n 3", " s ", "  fin  ", "k x y", "step into", "ss", "ct"}
 
-func c19randScript(r *rand.Rand, ntrace int) []string {
+func c19randScript(r *rand.Rand, ntrace int, mayPanic bool) []string {
 	n := r.Intn(12)
 	if r.Intn(3) == 0 {
 		n = r.Intn(2*ntrace + 2)
@@ -1008,6 +1012,12 @@ func c19randScript(r *rand.Rand, ntrace int) []string {
 	}
 	// weights of step/next/finish/continue for this script
 	w := [4]int{1 + r.Intn(8), 1 + r.Intn(8), r.Intn(4), r.Intn(3)}
+	if mayPanic {
+		// While a panic unwinds frames that run at full speed, the call depth seen by deferred functions
+		// differs from the one in single-stepped frames (run.CurrEnv is only restored by reExecWithFlags):
+		// the trace is the reference only as long as every frame is single-stepped.
+		w[3] = 0
+	}
 	tot := w[0] + w[1] + w[2] + w[3]
 	var ls []string
 	for i := 0; i < n; i++ {
@@ -1015,7 +1025,7 @@ func c19randScript(r *rand.Rand, ntrace int) []string {
 			ls = append(ls, c19noise[r.Intn(len(c19noise))])
 			continue
 		}
-		if r.Intn(150) == 0 {
+		if r.Intn(150) == 0 && !mayPanic {
 			ls = append(ls, []string{"kill", "k"}[r.Intn(2)])
 			continue
 		}
@@ -1095,11 +1105,12 @@ func c19gen(r *rand.Rand, tier string, emit func(string)) {
 		emit(c19mkop("D", all, tr, prelude, main))
 		emit(c19mkop("E", nil, tr, prelude, main))
 		for s := 0; s < nscript; s++ {
+			mayPanic := strings.Contains(prelude, "panic(")
 			kind := "D"
-			if r.Intn(3) == 0 {
+			if r.Intn(3) == 0 && !mayPanic {
 				kind = "E"
 			}
-			emit(c19mkop(kind, c19randScript(r, len(tr)), tr, prelude, main))
+			emit(c19mkop(kind, c19randScript(r, len(tr), mayPanic), tr, prelude, main))
 		}
 	}
 	// (3) malformed stream: command-language noise only
